@@ -66,7 +66,22 @@ pub fn reachable(m: &Model, skip_unimpacted: bool) -> Vec<SubProblem<St>> {
 }
 
 #[allow(clippy::too_many_arguments)]
-fn drive<D: DecisionDiagram<State = St> + Default + Drawable>(m: &Model, ddname: &str, run: usize, per_inst: usize, r: &mut StdRng, callbacks: bool, viz: bool, out: &mut dyn Write) {
+/// numeric part of the contract on the values a compilation reports, with the harness' own value-to-go: used ONLY to select, among
+/// the unlogged compilations of a sweep, the ones worth logging (TLC judges every logged compilation against DDContract.tla)
+fn suspect(ty: CompilationType, lb: isize, ro: Option<isize>, exact: bool, bv: Option<isize>, bev: Option<isize>) -> bool {
+    let ro = ro.unwrap_or(isize::MIN);
+    let beats = ro > lb;
+    let bv = bv.unwrap_or(isize::MIN);
+    let bev = bev.unwrap_or(isize::MIN);
+    match ty {
+        CompilationType::Relaxed => (beats && bv < ro) || (exact && beats && bev != ro) || bev > ro,
+        CompilationType::Restricted => bv > ro || (exact && beats && bv != ro),
+        CompilationType::Exact => (beats && bv != ro) || bv > ro,
+    }
+}
+
+#[allow(clippy::too_many_arguments)]
+fn drive<D: DecisionDiagram<State = St> + Default + Drawable>(m: &Model, ddname: &str, run: usize, per_inst: usize, r: &mut StdRng, callbacks: bool, viz: bool, sweep: usize, out: &mut dyn Write) {
     set_model(m);
     take_log();
     let rm = RecModel(m);
@@ -76,7 +91,9 @@ fn drive<D: DecisionDiagram<State = St> + Default + Drawable>(m: &Model, ddname:
     let mut dd: RecDD<D> = RecDD::default();
     let roots = reachable(m, ddname == "pooled" && m.long_arcs && r.gen_bool(0.5));
     writeln!(out, "{}", json!({"ev":"reset","run":run,"dd":ddname,"inst":m.to_json(),"callbacks":callbacks})).unwrap();
-    for _ in 0..per_inst {
+    for k in 0..per_inst * (1 + sweep) {
+        // the compilations beyond per_inst are a sweep: logged only when the numeric pre-filter finds their values suspect
+        let sweeping = k >= per_inst;
         let shallow: Vec<&SubProblem<St>> = roots.iter().filter(|x| x.depth <= 1).collect();
         let root = if r.gen_bool(0.8) { *shallow.choose(r).unwrap() } else { roots.choose(r).unwrap() };
         let ro = m.hstar(root.depth, root.state.x).map(|h| h + root.value);
@@ -90,16 +107,24 @@ fn drive<D: DecisionDiagram<State = St> + Default + Drawable>(m: &Model, ddname:
         let ty = [CompilationType::Relaxed, CompilationType::Relaxed, CompilationType::Relaxed, CompilationType::Restricted, CompilationType::Restricted, CompilationType::Exact][r.gen_range(0..6)];
         let width = [1, 1, 1, 2, 2, 2, 3, 3, 4, 5][r.gen_range(0..10)];
         let input = CompilationInput { comp_type: ty, max_width: width, problem: &rm, relaxation: &rm, ranking: &rm, cutoff: &cutoff, cache: &cache, dominance: &dom, residual: root, best_lb: lb };
-        CALLBACKS.store(callbacks, SeqCst);
+        CALLBACKS.store(callbacks && !sweeping, SeqCst);
         let res = std::panic::catch_unwind(std::panic::AssertUnwindSafe(|| dd.compile(&input)));
         CALLBACKS.store(false, SeqCst);
+        let mut keep = !sweeping;
+        if sweeping {
+            keep = match &res {
+                Err(_) => true,
+                Ok(Err(_)) => false,
+                Ok(Ok(c)) => suspect(ty, lb, ro, c.is_exact, dd.best_value(), dd.best_exact_value()),
+            };
+        }
         match res {
             Err(_) => {
                 emit(json!({"ev":"panic","where":"compile"}));
                 dd = RecDD::default();
             }
             Ok(c) => {
-                if viz && c.is_ok() {
+                if viz && c.is_ok() && !sweeping {
                     draw_all(&dd.inner, m);
                 }
                 // like the solvers: the cut-set is drained only when the relaxed diagram is not exact (an un-drained
@@ -112,7 +137,10 @@ fn drive<D: DecisionDiagram<State = St> + Default + Drawable>(m: &Model, ddname:
                 }
             }
         }
-        write_events(out, &take_log());
+        let evs = take_log();
+        if keep {
+            write_events(out, &evs);
+        }
     }
 }
 
@@ -219,6 +247,7 @@ fn main() {
     let callbacks = args.iter().any(|a| a == "--callbacks");
     let viz = args.iter().any(|a| a == "--viz");
     let fam = arg(&args, "--family").unwrap_or("mixed".into());
+    let sweep = argn(&args, "--sweep", 0) as usize;
     let only_dd = arg(&args, "--dd");
     let inst_file = arg(&args, "--inst-file");
     std::panic::set_hook(Box::new(|_| {}));
@@ -239,9 +268,9 @@ fn main() {
                 }
             }
             match ddname {
-                "lel" => drive::<Mdd<St, { LAST_EXACT_LAYER }>>(m, ddname, run, per_inst, &mut r, callbacks, viz, &mut out),
-                "fc" => drive::<Mdd<St, { FRONTIER }>>(m, ddname, run, per_inst, &mut r, callbacks, viz, &mut out),
-                _ => drive::<Pooled<St>>(m, ddname, run, per_inst, &mut r, callbacks, viz, &mut out),
+                "lel" => drive::<Mdd<St, { LAST_EXACT_LAYER }>>(m, ddname, run, per_inst, &mut r, callbacks, viz, sweep, &mut out),
+                "fc" => drive::<Mdd<St, { FRONTIER }>>(m, ddname, run, per_inst, &mut r, callbacks, viz, sweep, &mut out),
+                _ => drive::<Pooled<St>>(m, ddname, run, per_inst, &mut r, callbacks, viz, sweep, &mut out),
             }
             run += 1;
         }
